@@ -1,6 +1,7 @@
 import TTModel.Proto
 import TTModel.C06_Heights
 import TTModel.C07_Transforms
+import TTModel.C07_Torch
 /-!
 C07 driver. Numbers: `p/q` in mode `R`, 16-hex bit patterns in mode `F`.
 
@@ -12,6 +13,11 @@ C07 driver. Numbers: `p/q` in mode `R`, 16-hex bit patterns in mode `F`.
   tril <m> fwd <d> | v…                  d*d entries, row-major
   tril <m> inv <d> | Y…                  d(d+1)/2 entries
   ratiold F <n> <tree> | s… | y…         log|det J| reported by the ratio transform
+  torch F <spec> <what> | v…            element-wise torch transform applied to every entry; spec ∈ exp sigmoid
+                                          softplus affine:<loc>:<scale> power:<e> or <spec>^-1 (the `.inv` wrapper);
+                                          what ∈ fwd inv ld (ld: v are the x's, y = fwd x)
+  torchc F <spec;spec;…> <what> | v…     ComposeTransform of element-wise parts; what ∈ fwd ld
+  stick F fwd | x…  (n -> n+1)   stick F inv | y…  (n+1 -> n)   stick F ld | x…  (scalar)
   tp F <x0> <op>…                        op = s<hex> (wrapped parameter set + notification) | c (call)
                                           -> the values returned by the calls (ExpTransform: f = exp, ld x y = x)
 -/
@@ -98,6 +104,60 @@ def tpRun (x0 : Float) (ops : List String) : Option (List String) := do
     else none
   pure outs
 
+/-! torch transforms -/
+open TT.C07.Torch in
+def tinyF : Float := Float.ofBits 0x0010000000000000
+open TT.C07.Torch in
+def hiF : Float := Float.ofBits 0x3FEFFFFFFFFFFFFE  -- 1 - finfo.eps
+
+/-- (forward, inverse, log-det) of an element-wise torch transform given by its spec -/
+def torchSpec (spec : String) : Option ((Float → Float) × (Float → Float) × (Float → Float → Float)) :=
+  open TT.C07.Torch in
+  let (base, inverted) := if spec.endsWith "^-1" then ((spec.dropEnd 3).toString, true) else (spec, false)
+  let t : Option ((Float → Float) × (Float → Float) × (Float → Float → Float)) :=
+    match base.splitOn ":" with
+    | ["exp"] => some (expFwd, expInv, expLd)
+    | ["sigmoid"] => some (sigmoidFwd tinyF hiF, sigmoidInv tinyF hiF, sigmoidLd)
+    | ["softplus"] => some (softplusFwdT, softplusInvT, softplusLdT)
+    | ["affine", l, sc] => do
+        let l ← parseFloatBits l; let sc ← parseFloatBits sc
+        pure (affineFwd l sc, affineInv l sc, affineLd sc)
+    | ["power", e] => do
+        let e ← parseFloatBits e
+        pure (powerFwd e, powerInv e, powerLd e)
+    | _ => none
+  t.map fun (f, g, ld) => if inverted then (g, f, invLd ld) else (f, g, ld)
+
+def torchOp (spec what : String) (v : List Float) : String :=
+  match torchSpec spec with
+  | none => "bad-op"
+  | some (f, g, ld) =>
+    match what with
+    | "fwd" => " ".intercalate (v.map fun x => floatBits (f x))
+    | "inv" => " ".intercalate (v.map fun y => floatBits (g y))
+    | "ld" => " ".intercalate (v.map fun x => floatBits (ld x (f x)))
+    | _ => "bad-op"
+
+def torchCompose (specs what : String) (v : List Float) : String :=
+  open TT.C07.Torch in
+  match (specs.splitOn ";").mapM torchSpec with
+  | none => "bad-op"
+  | some ts =>
+    let parts : List (Part Float) := ts.map fun (f, _, ld) => ⟨f, ld⟩
+    match what with
+    | "fwd" => " ".intercalate (v.map fun x => floatBits (composeFwd parts x))
+    | "ld" => " ".intercalate (v.map fun x => floatBits (composeLd parts x))
+    | _ => "bad-op"
+
+def stickOp (what : String) (v : List Float) : String :=
+  open TT.C07.Torch in
+  let x := vecOf v
+  match what with
+  | "fwd" => outV floatC (sbFwd tinyF hiF v.length x) (v.length + 1)
+  | "inv" => if v.length = 0 then "bad-op" else outV floatC (sbInv tinyF (v.length - 1) x) (v.length - 1)
+  | "ld" => floatBits (sbLd v.length x (sbFwd tinyF hiF v.length x))
+  | _ => "bad-op"
+
 def handle (line : String) : String :=
   match splitWords line with
   | "vec" :: m :: tr :: what :: "|" :: ws =>
@@ -143,6 +203,18 @@ def handle (line : String) : String :=
         floatBits (ratioLd (ratioDetTerms n b (detIndices n t) (vecOf y)))
       | _, _ => "bad-op"
     | _, _ => "bad-op"
+  | "torch" :: "F" :: spec :: what :: "|" :: ws =>
+    match ws.mapM parseFloatBits with
+    | some v => torchOp spec what v
+    | none => "bad-op"
+  | "torchc" :: "F" :: specs :: what :: "|" :: ws =>
+    match ws.mapM parseFloatBits with
+    | some v => torchCompose specs what v
+    | none => "bad-op"
+  | "stick" :: "F" :: what :: "|" :: ws =>
+    match ws.mapM parseFloatBits with
+    | some v => stickOp what v
+    | none => "bad-op"
   | "tp" :: "F" :: x0 :: ops =>
     match parseFloatBits x0 with
     | some x0 => match tpRun x0 ops with
